@@ -29,6 +29,8 @@ import (
 	"runtime/debug"
 	"strconv"
 	"strings"
+	"sync/atomic"
+	"syscall"
 	"time"
 	"unicode/utf8"
 	"unsafe"
@@ -93,7 +95,7 @@ type c17Seg struct {
 // c17Case is self-contained: Replay rebuilds the bytes from Segs alone.
 type c17Case struct {
 	Part   string   `json:"part"`   // readall | readn | e2e
-	Stream string   `json:"stream"` // file | byte
+	Stream string   `json:"stream"` // file | byte | fifo (named pipe, N1 bytes per write) | grow (N1 bytes when the stream is made, complete when read)
 	N1     int      `json:"n1,omitempty"`
 	N2     int      `json:"n2,omitempty"`
 	Segs   []c17Seg `json:"segs"`
@@ -361,9 +363,91 @@ func (e *c17Env) eval(cs *c17Case) (f *mc.Failure, or c17Oracle) {
 		}
 	}
 	switch cs.Part {
+	case "dir":
+		// the path is a directory: opening works, reading cannot - an error, never an empty program
+		fs, err := zio.NewFileStream(e.dir)
+		if err == nil {
+			defer c17CloseStream(fs)
+			got, rerr := fs.ReadAll()
+			if rerr == nil {
+				return &mc.Failure{Kind: "mismatch", Bucket: "dir/readall", Case: mc.J(cs), Expected: "reading a directory as a source is an error", Observed: fmt.Sprintf("%d characters and no error", len(got))}, or
+			}
+		}
+		if got := zn.RunRealFile(e.dir, nil); got.Panic != "" || got.Err == nil {
+			return &mc.Failure{Kind: "mismatch", Bucket: "dir/run", Case: mc.J(cs), Expected: "running a directory is an error", Observed: c17OutStr(got) + " " + got.Panic}, or
+		}
+		return nil, or
 	case "readall", "readn":
 		var got []rune
 		var rerr error
+		if cs.Stream == "fifo" {
+			// the same bytes through a named pipe, written N1 bytes at a time (0 = at once): the
+			// reader sees size 0 and short reads; it must deliver what a regular file delivers
+			fifo := filepath.Join(e.dir, "pipe.zn")
+			_ = os.Remove(fifo)
+			if err := syscall.Mkfifo(fifo, 0o644); err != nil {
+				return &mc.Failure{Kind: "crash", Case: mc.J(cs), Observed: "mkfifo: " + err.Error()}, or
+			}
+			wdone := make(chan bool, 1)
+			var stop atomic.Bool
+			payload := append([]byte{}, data...)
+			go func() {
+				defer func() { wdone <- true }()
+				w, err := os.OpenFile(fifo, os.O_WRONLY, 0)
+				if err != nil {
+					return
+				}
+				defer w.Close()
+				step := cs.N1
+				if step <= 0 {
+					step = len(payload) + 1
+				}
+				for i := 0; i < len(payload); i += step {
+					j := i + step
+					if j > len(payload) {
+						j = len(payload)
+					}
+					if _, err := w.Write(payload[i:j]); err != nil {
+						return
+					}
+					// the next piece only once the reader has taken this one (FIONREAD == 0): every
+					// read() of the reader returns exactly one piece, the same way in every run
+					for !stop.Load() {
+						var pending int32
+						if _, _, en := syscall.Syscall(syscall.SYS_IOCTL, w.Fd(), 0x541B, uintptr(unsafe.Pointer(&pending))); en != 0 || pending == 0 {
+							break
+						}
+						runtime.Gosched()
+					}
+				}
+			}()
+			fs, err := zio.NewFileStream(fifo)
+			if err != nil {
+				return &mc.Failure{Kind: "crash", Case: mc.J(cs), Observed: "NewFileStream(fifo): " + err.Error()}, or
+			}
+			got, rerr = fs.ReadAll()
+			stop.Store(true)
+			c17CloseStream(fs) // (also releases a writer that still has bytes to deliver)
+			<-wdone
+			return c17Judge(cs, or, got, rerr), or
+		}
+		if cs.Stream == "grow" {
+			// the file holds its first N1 bytes when the stream is made and is complete when it is
+			// read: nothing of it is left out
+			if err := e.write(data[:cs.N1]); err != nil {
+				return &mc.Failure{Kind: "crash", Case: mc.J(cs), Observed: "cannot write scratch file: " + err.Error()}, or
+			}
+			fs, err := zio.NewFileStream(e.path)
+			if err != nil {
+				return &mc.Failure{Kind: "crash", Case: mc.J(cs), Observed: "NewFileStream: " + err.Error()}, or
+			}
+			defer c17CloseStream(fs)
+			if err := e.write(data); err != nil {
+				return &mc.Failure{Kind: "crash", Case: mc.J(cs), Observed: "cannot write scratch file: " + err.Error()}, or
+			}
+			got, rerr = fs.ReadAll()
+			return c17Judge(cs, or, got, rerr), or
+		}
 		if cs.Stream == "file" {
 			fs, err := zio.NewFileStream(e.path)
 			if err != nil {
@@ -438,7 +522,7 @@ func init() {
 	mc.Register(&mc.Check{
 		ID:    "C17",
 		Level: "exploration",
-		Rule: "E1 exhaustive: (a3) 1..3 full read blocks followed by every incomplete head of a 2-, 3- or 4-byte character (the head is alone in the last read): rejected, never dropped; (a2) runs of N characters of one width (1, 2, 3, 4 bytes) with N x width within 3 characters of one and of two read blocks, behind 0..4 bytes of padding, decoded and run as a program (the run inside a comment, a statement after it); (a) every string of <= L characters over {a, é, 你, 😀, U+FFFD, U+FEFF} (L=4 quick, 5 thorough): unpadded through FileStream.ReadAll and ByteStream.ReadAll; padded with ASCII (before the character, and at file start) so that byte offset k of each character (k = 0..len, internal ones are the non-trivial cases) lies on block boundary 4096 and on 8192, through FileStream.ReadAll; unpadded through FileStream.Read(n) and ByteStream.Read(n) repeated to exhaustion for every constant n in 1..9 and every alternating pair (n1,n2) in 1..5 x 1..5. " +
+		Rule: "E1 exhaustive: (d) a directory as source path is an error, through ReadAll and through LoadFile; (c) two 10 KiB texts through a named pipe written 1, 7, 4095, 4096, 4097, 5000 bytes at a time and at once, and as a file that holds its first 0, 1, 4095, 4096, 4097, 8192, 9000 bytes when the stream is made and is complete when it is read; every string of 1..3 characters of (a) through a named pipe written 1, 2, 3, 5 bytes at a time and at once, and as a file completed after the stream was made (every byte offset); (a3) 1..3 full read blocks followed by every incomplete head of a 2-, 3- or 4-byte character (the head is alone in the last read): rejected, never dropped; (a2) runs of N characters of one width (1, 2, 3, 4 bytes) with N x width within 3 characters of one and of two read blocks, behind 0..4 bytes of padding, decoded and run as a program (the run inside a comment, a statement after it); (a) every string of <= L characters over {a, é, 你, 😀, U+FFFD, U+FEFF} (L=4 quick, 5 thorough): unpadded through FileStream.ReadAll and ByteStream.ReadAll; padded with ASCII (before the character, and at file start) so that byte offset k of each character (k = 0..len, internal ones are the non-trivial cases) lies on block boundary 4096 and on 8192, through FileStream.ReadAll; unpadded through FileStream.Read(n) and ByteStream.Read(n) repeated to exhaustion for every constant n in 1..9 and every alternating pair (n1,n2) in 1..5 x 1..5. " +
 			"(b) every byte string of length <= 2 over all 256 values and of length 3 over 24 structural bytes (thorough: length 3 over all 256 values in the middle position, length 4 over the 24) inserted into a small ASCII+CJK host at start / middle / after the 1st and 2nd byte of a CJK character / end (FileStream.ReadAll and ByteStream.ReadAll) and into a 4.2 KiB host at every split of the string across block boundary 4096 (FileStream.ReadAll); every single-byte substitution (255 values x every offset) of a 60-byte sample with 1-4-byte characters, plain and with the substituted byte at offsets 4095 and 4096; GBK encodings of 4 sample programs alone and after a valid UTF-8 first line. " +
 			"(c) end to end through Interpreter.LoadFile(...).Execute: three small programs with every single byte, every pair of structural bytes and U+FFFD / U+FEFF / é / 😀 inserted at every byte offset, and every single-byte substitution; a > 4 KiB program with every single byte inserted in its second read block; plus the GBK files. " +
 			"Oracle: utf8.Valid => exactly []rune(string(bytes)) minus one leading U+FEFF and no error (end to end: same outcome as executing that text through LoadScript); not valid => a non-nil error (end to end: an error and no 显示 executed). (string, position, stream, n) tuples are distinct by construction (a few files coincide where inserted bytes equal neighbouring host bytes); a case is non-trivial if the input is not valid UTF-8, or contains U+FFFD / U+FEFF, or a multi-byte character is split by a block / Read(n) boundary.",
@@ -554,6 +638,28 @@ func c17Run(c *mc.Ctx) {
 		}
 	}
 
+	// ---- (d) the path is a directory
+	if unit() {
+		cur = c17Case{Part: "dir", Stream: "file", Segs: c17Segs(c17T(""))}
+		run("directory_as_source", true)
+	}
+	// ---- (c) long texts through a named pipe: pieces around the read block, and single bytes
+	for _, unitText := range []string{c17HostUnit, "é你😀a"} {
+		for _, step := range []int{0, 1, 7, 4095, 4096, 4097, 5000} {
+			if !unit() {
+				continue
+			}
+			cur = c17Case{Part: "readall", Stream: "fifo", N1: step, Segs: c17Segs(c17R(unitText, 1100), c17T("尾"))}
+			run("c_fifo_long_readall", true)
+		}
+		for _, k := range []int{0, 1, 4095, 4096, 4097, 8192, 9000} {
+			if !unit() {
+				continue
+			}
+			cur = c17Case{Part: "readall", Stream: "grow", N1: k, Segs: c17Segs(c17R(unitText, 1100), c17T("尾"))}
+			run("c_growing_file_long_readall", true)
+		}
+	}
 	// ---- (a) valid strings
 	L := 4
 	if thorough {
@@ -620,6 +726,17 @@ func c17Run(c *mc.Ctx) {
 						oj += lj
 					}
 					oi += li
+				}
+			}
+			// through a named pipe in pieces, and as a file that is completed after the stream was made
+			if n >= 1 && n <= 3 {
+				for _, step := range []int{0, 1, 2, 3, 5} {
+					cur = c17Case{Part: "readall", Stream: "fifo", N1: step, Segs: c17Segs(c17T(str))}
+					run("a_fifo_readall", multi)
+				}
+				for k := 0; k < len(str); k++ {
+					cur = c17Case{Part: "readall", Stream: "grow", N1: k, Segs: c17Segs(c17T(str))}
+					run("a_growing_file_readall", true)
 				}
 			}
 			// Read(n) loops
